@@ -140,7 +140,9 @@ def run_property(prop, tier="quick", seed=0, out=sys.stdout):
         except Exception as ex:  # build failure etc.
             broken.append("export %s: %s" % (cfg, ex))
             continue
-        scanned[cfg] = {"bodies": len(facts.bodies), "own_bodies": len(facts.own), "fact_file": os.path.relpath(fpath, VERIF)}
+        scanned[cfg] = {"bodies": len(facts.bodies), "own_bodies": len(facts.own), "fact_file": os.path.relpath(fpath, VERIF),
+                        # private functions that the reference table does not know were inlined into their callers before the rules ran
+                        "helpers_inlined_into_callers": sorted(set("%s <- %s" % (c_, h_) for c_, h_ in facts.spliced))}
         ctx = Ctx(facts, cfg)
         for r in rules:
             if r.configs is not None and cfg not in r.configs:
